@@ -42,6 +42,8 @@ func ruleC14(c *Ctx) {
 	c.rule("C14-R2", "same context: SigAlg names the algorithm of the very context whose SignString signs")
 	c.rule("C14-R3", "order: the signing string lists SAMLRequest, [RelayState,] SigAlg in that order; RelayState is added to the URL exactly when non-empty")
 	c.rule("C14-R4", "signed values = sent values: each signed value is the value added to (or read back from) the query for that key")
+	c.rule("C14-R6", "configuration setters: SetSPKeyStore / SetSPSigningKeyStore store their argument into their own override field and nothing else (shared with C13-R6, C19-R4) — the key that signs is the key configured for signing")
+	setterContract(c, "C14-R6")
 	c.rule("C14-R5", "pipeline: raw DEFLATE writer over a fresh buffer receives exactly the document; Close() is error-checked before the buffer is read; base64.StdEncoding for SAMLRequest and Signature; the query derives from url.Parse(<flow endpoint>).Query() and the function returns parsedURL.String()")
 	for _, rs := range redirSpecs {
 		res := c.kernel(rs.Fn, rs.Inline...)
